@@ -60,7 +60,7 @@ def run(ctx):
                       ('one stalled client (script %s, read timeout 400ms): %s' % (k['mode'], k['effect'])) if k['frame_type'] == 'STALL' else ('one client sending %s: %s' % (k['mode'], k['effect'])) if k['frame_type'] == 'SHOT' else ('ordinary clients only (%s): %s' % (k['mode'], k['effect'])) if k['frame_type'] == 'ORDINARY' else
                       'one HTTP/2 connection sending a %s frame (%d bytes, %s, open header block on %s): %s' % (k['frame_type'], k['len'], k['mode'], k['open_header_block_on'], k['effect']), k)
     cov = {'traces_validated_against_impl': len([a for a in accepted if a.split('-')[0] in ('mix', 'iofault', 'leave')]) + npanic + abuse['connections'],
-           'h2_frame_abuse': {k: abuse[k] for k in ('vectors_in_graph', 'connections', 'by_type', 'strata', 'outcomes', 'control_rounds', 'stall_scripts', 'one_shot_scripts') if k in abuse},
+           'h2_frame_abuse': {k: abuse[k] for k in ('vectors_in_graph', 'connections', 'by_type', 'strata', 'outcomes', 'control_rounds', 'stall_scripts', 'one_shot_scripts', 'floods') if k in abuse},
            'samples': [{'panic_scenario': {k: v for k, v in s.items() if k != 'child_stderr_head'}} for s in report if s['family'] == 'panic'][:2] + [{'trace_prefix': lc.sample_trace(lines, 10)}],
            'panic_callbacks': [s['point'] for s in report if s['family'] == 'panic'],
            'abuse_scenarios': [s['name'] for s in report if s['family'] in ('mix', 'iofault', 'leave')],
